@@ -467,6 +467,11 @@ def run_pair(model_exe, impl_exe, cases, timeout=1200, shards=None, impl_env=Non
             if rc == 0 and len(lines) >= len(chunk) - pos:
                 pos = len(chunk)
                 break
+            if lines and 'ABORT timeout watchdog' in lines[-1]:
+                # the per-case watchdog reported the culprit itself and exited: carry on after it
+                pos += len(lines)
+                guard += 1
+                continue
             # abnormal end: the case after the last printed line is the culprit
             bad = pos + len(lines)
             if bad >= len(chunk):
